@@ -1,7 +1,7 @@
 #!/usr/bin/env python3
 """seed_rerun.py [ids...] — re-run the checks against every kept seeded change, on a scratch worktree (never /repo).
 Updates seeded/<id>/meta.json (check_results, caught_by) and prints a table."""
-import json, os, subprocess, sys, glob
+import json, os, subprocess, sys, glob, shutil
 HERE = os.path.dirname(os.path.dirname(os.path.abspath(__file__)))
 WT = "/tmp/wt_rerun"
 def sh(cmd, **kw):
@@ -10,6 +10,7 @@ def sh(cmd, **kw):
 sh("git -C /repo worktree remove --force %s" % WT)
 rc, out = sh("git -C /repo worktree add -f --detach %s HEAD" % WT)
 ids = sys.argv[1:] or [os.path.basename(d) for d in sorted(glob.glob(os.path.join(HERE, "seeded", "*-*")))]
+shutil.copy("/repo/Cargo.lock", WT + "/Cargo.lock") if not os.path.exists(WT + "/Cargo.lock") else None
 env = dict(os.environ, VERIF_REPO=WT, VERIF_EVIDENCE_DIR="/tmp/seed_evidence", VERIF_REPLAY_DIR="/tmp/seed_replays", VERIF_NO_REPLAY_SEARCH="1")
 try:
     for i in ids:
